@@ -273,19 +273,6 @@ func nilGuard(src bmodel.Node, a gmodel.Assignment) gmodel.Assignment {
 	return a
 }
 
-// addressable reports whether the Go expression of the node can be the operand of &:
-// the root variable, or a field of an addressable struct or of a pointer.
-func addressable(node bmodel.Node) bool {
-	switch n := node.(type) {
-	case bmodel.RootNode:
-		return true
-	case bmodel.StructFieldNode:
-		parent := n.Parent()
-		return parent == nil || util.IsPtr(parent.ExprType()) || addressable(parent)
-	}
-	return false
-}
-
 // createWithConverter creates an assignment using the given field converter.
 // It resolves the source field, applies the converter, and creates an assignment from the result.
 func (b *assignmentBuilder) createWithConverter(lhs, rhs bmodel.Node, converter *option.FieldConverter) (gmodel.Assignment, error) {
@@ -305,7 +292,7 @@ func (b *assignmentBuilder) createWithConverter(lhs, rhs bmodel.Node, converter 
 				return nil
 			}
 			argNode, ok = b.castNode(util.DerefPtr(converter.ArgType()), rhsNode)
-			if !ok || !addressable(argNode) {
+			if !ok || !bmodel.Addressable(argNode) {
 				// The converter takes a pointer: only a value whose address can be
 				// taken (a field, not a call or conversion result) can be passed.
 				return nil
@@ -507,7 +494,7 @@ func (b *assignmentBuilder) resolveExpr(matcher *option.IdentMatcher, root bmode
 			}
 
 			ret, retError, valid := util.ParseGetterReturnTypes(method)
-			if !valid {
+			if !valid || !bmodel.Callable(node, method) {
 				return
 			}
 
@@ -586,7 +573,7 @@ func (b *assignmentBuilder) resolveTemplatedExpr(
 			}
 
 			ret, retError, valid := util.ParseGetterReturnTypes(method)
-			if !valid {
+			if !valid || !bmodel.Callable(node, method) {
 				return
 			}
 
